@@ -29,12 +29,13 @@ Print Assumptions C12_norm_sound.
    family T(i,j,k) that satisfies T(0,0,k) = values[k-2] and the two recurrences R_j, R_i, at every p, x, y <> 0, the
    exact-arithmetic value of the case selected for (i,j,k) -- the sum over its statements of coefficient expression
    times base integral, as written in the source -- is T(i,j,k); the only cases taken on trust are those no recurrence
-   reaches (verdict VUnchecked). *)
+   reaches (verdict VUnchecked).  The recurrences are only required where the integrals they speak of exist (power k >= 1 of r in every
+   integral involved: k >= 2 at the left-hand side), so that the hypotheses are satisfied by the actual integrals. *)
 Theorem C12_case_value : forall (p x y : R), p <> 0%R -> x <> 0%R -> y <> 0%R ->
   forall (vals : basis -> R) (Tf : Z -> Z -> Z -> R),
-  (forall k, Tf 0 0 k = vals (BV (k - 2))) ->
-  (forall j k, 2 <= j -> Tf 0 j k = (Tf 0%Z (j - 2)%Z k - IZR (2 * j - 1) / (2 * y) * Tf 0%Z (j - 1)%Z (k - 1)%Z)%R) ->
-  (forall i j k, 1 <= i -> 1 <= j ->
+  (forall k, 1 <= k -> Tf 0 0 k = vals (BV (k - 2))) ->
+  (forall j k, 2 <= j -> 2 <= k -> Tf 0 j k = (Tf 0%Z (j - 2)%Z k - IZR (2 * j - 1) / (2 * y) * Tf 0%Z (j - 1)%Z (k - 1)%Z)%R) ->
+  (forall i j k, 1 <= i -> 1 <= j -> 2 <= k ->
      Tf i j k = (IZR (2 + j - i - k) / (2 * x) * Tf (i - 1)%Z j (k - 1)%Z - y / x * Tf (i - 1)%Z (j - 1)%Z k + p / x * Tf (i - 1)%Z j (k + 1)%Z)%R) ->
   forall tab, table_wf tab = true -> table_ok tab = true ->
   (forall i j k l, 0 <= j < 100 -> 0 <= k < 100 -> check_case tab (key_of i j k) = VUnchecked ->
@@ -73,8 +74,8 @@ From LV Require Import Bessel.BesselSpec Radial.RadialRec.
 Theorem C12_recurrence_j_from_the_integrals : forall (zeta a b A B : R), (0 < b * B)%R ->
   forall (Fa : (R -> Prop) -> Prop) (FFa : ProperFilter Fa), Fa (fun u => (0 <= u)%R) ->
   forall T : nat -> nat -> Z -> R,
-  (forall i j k, is_RInt_gen (F zeta a b A B i j k) Fa (Rbar_locally p_infty) (T i j k)) ->
-  forall (i j : nat) (k : Z), T i (S (S j)) k = (T i j k - (2 * INR j + 3) / (2 * (b * B)) * T i (S j) (k - 1)%Z)%R.
+  (forall i j k, (1 <= k)%Z -> is_RInt_gen (F zeta a b A B i j k) Fa (Rbar_locally p_infty) (T i j k)) ->
+  forall (i j : nat) (k : Z), (2 <= k)%Z -> T i (S (S j)) k = (T i j k - (2 * INR j + 3) / (2 * (b * B)) * T i (S j) (k - 1)%Z)%R.
 Proof. intros zeta a b A B Hy Fa FFa HFa T HT. exact (T_rec_j zeta a b A B Hy Fa HFa T HT). Qed.
 Print Assumptions C12_recurrence_j_from_the_integrals.
 (* R_i: one integration by parts.  With H(r) = r^k env(r) M_i(2aAr) M_{j+1}(2bBr), whose derivative is the combination of four integrands
@@ -83,9 +84,9 @@ Print Assumptions C12_recurrence_j_from_the_integrals.
 Theorem C12_recurrence_i_by_parts : forall (zeta a b A B : R), (0 < b * B)%R ->
   forall (Fa : (R -> Prop) -> Prop) (FFa : ProperFilter Fa), Fa (fun u => (0 <= u)%R) ->
   forall T : nat -> nat -> Z -> R,
-  (forall i j k, is_RInt_gen (F zeta a b A B i j k) Fa (Rbar_locally p_infty) (T i j k)) ->
+  (forall i j k, (1 <= k)%Z -> is_RInt_gen (F zeta a b A B i j k) Fa (Rbar_locally p_infty) (T i j k)) ->
   (0 < a * A)%R ->
-  forall (i j : nat) (k : Z), Fa (fun u => (0 < u)%R) ->
+  forall (i j : nat) (k : Z), (2 <= k)%Z -> Fa (fun u => (0 < u)%R) ->
   filterlim (H zeta a b A B i j k) Fa (locally 0%R) -> filterlim (H zeta a b A B i j k) (Rbar_locally p_infty) (locally 0%R) ->
   (2 * (a * A) * T (S i) (S j) k
    = IZR (2 + Z.of_nat j - Z.of_nat i - k) * T i (S j) (k - 1)%Z + 2 * (zeta + a + b) * T i (S j) (k + 1)%Z - 2 * (b * B) * T i j k)%R.
@@ -95,16 +96,16 @@ Print Assumptions C12_recurrence_i_by_parts.
 Theorem C12_SRj_from_the_integrals : forall (zeta a b A B : R), (0 < b * B)%R ->
   forall (Fa : (R -> Prop) -> Prop) (FFa : ProperFilter Fa), Fa (fun u => (0 <= u)%R) ->
   forall T : nat -> nat -> Z -> R,
-  (forall i j k, is_RInt_gen (F zeta a b A B i j k) Fa (Rbar_locally p_infty) (T i j k)) ->
-  forall j k : Z, (2 <= j)%Z ->
+  (forall i j k, (1 <= k)%Z -> is_RInt_gen (F zeta a b A B i j k) Fa (Rbar_locally p_infty) (T i j k)) ->
+  forall j k : Z, (2 <= j)%Z -> (2 <= k)%Z ->
   Tz T 0 j k = (Tz T 0 (j - 2)%Z k - IZR (2 * j - 1) / (2 * (b * B)) * Tz T 0 (j - 1)%Z (k - 1)%Z)%R.
 Proof. intros zeta a b A B Hy Fa FFa HFa T HT. exact (SRj_from_integrals zeta a b A B Hy Fa HFa T HT). Qed.
 Theorem C12_SRi_from_the_integrals : forall (zeta a b A B : R), (0 < b * B)%R ->
   forall (Fa : (R -> Prop) -> Prop) (FFa : ProperFilter Fa), Fa (fun u => (0 <= u)%R) ->
   forall T : nat -> nat -> Z -> R,
-  (forall i j k, is_RInt_gen (F zeta a b A B i j k) Fa (Rbar_locally p_infty) (T i j k)) ->
+  (forall i j k, (1 <= k)%Z -> is_RInt_gen (F zeta a b A B i j k) Fa (Rbar_locally p_infty) (T i j k)) ->
   (0 < a * A)%R ->
-  forall i j k : Z, (1 <= i)%Z -> (1 <= j)%Z -> Fa (fun u => (0 < u)%R) ->
+  forall i j k : Z, (1 <= i)%Z -> (1 <= j)%Z -> (2 <= k)%Z -> Fa (fun u => (0 < u)%R) ->
   filterlim (H zeta a b A B (Z.to_nat (i - 1)) (Z.to_nat (j - 1)) k) Fa (locally 0%R) ->
   filterlim (H zeta a b A B (Z.to_nat (i - 1)) (Z.to_nat (j - 1)) k) (Rbar_locally p_infty) (locally 0%R) ->
   Tz T i j k = (IZR (2 + j - i - k) / (2 * (a * A)) * Tz T (i - 1)%Z j (k - 1)%Z - (b * B) / (a * A) * Tz T (i - 1)%Z (j - 1)%Z k
@@ -115,17 +116,20 @@ Print Assumptions C12_SRi_from_the_integrals.
 Local Open Scope Z_scope.
 (* The table theorem for the integrals themselves: C12_case_value with the two recurrences discharged by Radial/RadialRec.v.
    T i j k is the improper integral over (0, inf) of r^k exp(-zeta r^2 - a (r-A)^2 - b (r-B)^2) M_i(2aAr) M_j(2bBr) (lower end: at_right 0).
+   Every hypothesis about the integrals is restricted to the powers k for which it is true of the actual integrals (F(i,j,k) ~ r^(k+i+j)
+   and H(i,j,k) ~ r^(k+i+j+1) at 0): existence for k >= 1, vanishing boundary terms for k >= 2, base integrals for k >= 1 - exactly
+   the instances the table check uses (keys have 1 <= k <= 98; a recurrence step is only accepted for k >= 2).
    Remaining hypotheses: the integrals exist; the boundary terms of the integration by parts vanish; the base integrals values[k-2] are
    T(0,0,k) (the Dawson-function formulas of compute_base_integrals: compared numerically, C12 correspondence); the cases no recurrence
    reaches.  Then for EVERY well-formed table that passes the check - in particular the one translated from radial_gen.cpp on this run -
    the exact-arithmetic value of the case the switch selects for (i,j,k) is the integral T(i,j,k). *)
 Theorem C12_case_value_for_the_integrals : forall (zeta a b A B : R), (0 < a * A)%R -> (0 < b * B)%R -> (zeta + a + b <> 0)%R ->
   forall T : nat -> nat -> Z -> R,
-  (forall i j k, is_RInt_gen (F zeta a b A B i j k) (at_right 0%R) (Rbar_locally p_infty) (T i j k)) ->
-  (forall i j k, filterlim (H zeta a b A B i j k) (at_right 0%R) (locally 0%R)) ->
-  (forall i j k, filterlim (H zeta a b A B i j k) (Rbar_locally p_infty) (locally 0%R)) ->
+  (forall i j k, 1 <= k -> is_RInt_gen (F zeta a b A B i j k) (at_right 0%R) (Rbar_locally p_infty) (T i j k)) ->
+  (forall i j k, 2 <= k -> filterlim (H zeta a b A B i j k) (at_right 0%R) (locally 0%R)) ->
+  (forall i j k, 2 <= k -> filterlim (H zeta a b A B i j k) (Rbar_locally p_infty) (locally 0%R)) ->
   forall (vals : basis -> R),
-  (forall k, Tz T 0 0 k = vals (BV (k - 2))) ->
+  (forall k, 1 <= k -> Tz T 0 0 k = vals (BV (k - 2))) ->
   forall tab, table_wf tab = true -> table_ok tab = true ->
   (forall i j k l, 0 <= j < 100 -> 0 <= k < 100 -> check_case tab (key_of i j k) = VUnchecked ->
      lookup tab i j k = Some l -> elc (zeta + a + b) (a * A) (b * B) vals l = Tz T i j k) ->
@@ -138,8 +142,8 @@ Proof.
   assert (Fspos : at_right 0%R (fun u => (0 < u)%R)).
   { exists (mkposreal 1 Rlt_0_1). intros y _ Hy0. exact Hy0. }
   apply (case_value (zeta + a + b) (a * A) (b * B) Hp (Rgt_not_eq _ _ Hx) (Rgt_not_eq _ _ Hy) vals (Tz T) Hbase).
-  - intros j k Hj. exact (SRj_from_integrals zeta a b A B Hy (at_right 0%R) Fpos T HT j k Hj).
-  - intros i j k Hi Hj. exact (SRi_from_integrals zeta a b A B Hy (at_right 0%R) Fpos T HT Hx i j k Hi Hj Fspos (HB0 _ _ _) (HBi _ _ _)).
+  - intros j k Hj Hk. exact (SRj_from_integrals zeta a b A B Hy (at_right 0%R) Fpos T HT j k Hj Hk).
+  - intros i j k Hi Hj Hk. exact (SRi_from_integrals zeta a b A B Hy (at_right 0%R) Fpos T HT Hx i j k Hi Hj Hk Fspos (HB0 _ _ _ Hk) (HBi _ _ _ Hk)).
   - exact Hwf.
   - exact Hok.
   - exact Hanch.
@@ -156,10 +160,10 @@ Proof. exact H_decay. Qed.
 Print Assumptions C12_boundary_term_vanishes_at_infinity.
 Theorem C12_case_value_for_the_integrals_2 : forall (zeta a b A B : R), (0 < a * A)%R -> (0 < b * B)%R -> (0 < zeta + a + b)%R ->
   forall T : nat -> nat -> Z -> R,
-  (forall i j k, is_RInt_gen (F zeta a b A B i j k) (at_right 0%R) (Rbar_locally p_infty) (T i j k)) ->
-  (forall i j k, filterlim (H zeta a b A B i j k) (at_right 0%R) (locally 0%R)) ->
+  (forall i j k, 1 <= k -> is_RInt_gen (F zeta a b A B i j k) (at_right 0%R) (Rbar_locally p_infty) (T i j k)) ->
+  (forall i j k, 2 <= k -> filterlim (H zeta a b A B i j k) (at_right 0%R) (locally 0%R)) ->
   forall (vals : basis -> R),
-  (forall k, Tz T 0 0 k = vals (BV (k - 2))) ->
+  (forall k, 1 <= k -> Tz T 0 0 k = vals (BV (k - 2))) ->
   forall tab, table_wf tab = true -> table_ok tab = true ->
   (forall i j k l, 0 <= j < 100 -> 0 <= k < 100 -> check_case tab (key_of i j k) = VUnchecked ->
      lookup tab i j k = Some l -> elc (zeta + a + b) (a * A) (b * B) vals l = Tz T i j k) ->
@@ -167,6 +171,6 @@ Theorem C12_case_value_for_the_integrals_2 : forall (zeta a b A B : R), (0 < a *
     find (fun c => fst c =? key_of i j k) tab = Some c -> ecase (zeta + a + b) (a * A) (b * B) vals (snd c) = Tz T i j k.
 Proof.
   intros zeta a b A B Hx Hy Hp T HT HB0. apply (C12_case_value_for_the_integrals zeta a b A B Hx Hy (Rgt_not_eq _ _ Hp) T HT HB0).
-  intros i j k. apply H_decay; assumption.
+  intros i j k _. apply H_decay; assumption.
 Qed.
 Print Assumptions C12_case_value_for_the_integrals_2.
